@@ -25,19 +25,24 @@ theorem skipErr_nonfatal (sid : Nat) (e : Err) (h : skipErr sid = some e) : e.no
   · simp only [Option.some.injEq] at h; subst h; rfl
   · simp at h
 
+/-- the leftover skip moves over exactly `x` when `x` is what is left of the set -/
+theorem skipRest_rem (ctx : Ctx) (x rest : Bytes) (c2 : Nat) (cache : Cache) (recs : List Record)
+    (e1 : Option Err)
+    (hl : (ctx.len + 65536 - consumed16 ctx ⟨x ++ rest, c2⟩) % 65536 = x.length) :
+    skipRest ctx ⟨⟨x ++ rest, c2⟩, cache, recs⟩ e1 = (⟨⟨rest, c2 + x.length⟩, cache, recs⟩, e1) := by
+  simp only [skipRest, hl]
+  by_cases hb : x.length > 0
+  · rw [if_pos hb, readN_append]
+  · rw [if_neg hb]
+    have : x = [] := List.eq_nil_of_length_eq_zero (by omega)
+    subst this; rfl
+
 /-- the leftover skip, started right after the set header, moves over exactly the body -/
 theorem skipRest_body (ctx : Ctx) (body rest : Bytes) (c2 : Nat) (cache : Cache) (recs : List Record)
     (e1 : Option Err) (hlen : ctx.len = 4 + body.length) (hlt : 4 + body.length < 65536)
     (hst : c2 = ctx.start + 4) :
-    skipRest ctx ⟨⟨body ++ rest, c2⟩, cache, recs⟩ e1 = (⟨⟨rest, c2 + body.length⟩, cache, recs⟩, e1) := by
-  have hl : (ctx.len + 65536 - consumed16 ctx ⟨body ++ rest, c2⟩) % 65536 = body.length := by
-    simp only [consumed16, hlen, hst]; omega
-  simp only [skipRest, hl]
-  by_cases hb : body.length > 0
-  · rw [if_pos hb, readN_append]
-  · rw [if_neg hb]
-    have : body = [] := List.eq_nil_of_length_eq_zero (by omega)
-    subst this; rfl
+    skipRest ctx ⟨⟨body ++ rest, c2⟩, cache, recs⟩ e1 = (⟨⟨rest, c2 + body.length⟩, cache, recs⟩, e1) :=
+  skipRest_rem ctx body rest c2 cache recs e1 (by simp only [consumed16, hlen, hst]; omega)
 
 theorem setLoop_reserved (ctx : Ctx) (fuel : Nat) (st : St) (h : 4 ≤ ctx.setId ∧ ctx.setId ≤ 255) :
     setLoop ctx (fuel + 1) st = (st, none, false) := by
@@ -79,33 +84,191 @@ theorem decodeSet_skips (addr : Bytes) (fuel : Nat) (st : St) (sid : Nat) (body 
     simp only [skipErr, if_neg hbig, Bool.false_eq_true, if_false]
     exact skipRest_body _ body rest _ cache recs _ rfl hlen rfl
 
-/-- **skip, outer loop**: with an undecodable set in front (and more than 4 octets in all), the
-outer loop spends one iteration on it and continues on `rest` with the same cache and records, the
-count advanced, and `skipErr` appended to the non-fatal errors. -/
+theorem dataLen_total (specLen ty : Nat) (r : Rd) (res : Except Err Nat) (r' : Rd)
+    (h : dataLen r specLen ty = (res, r')) :
+    r'.cnt + r'.rem.length = r.cnt + r.rem.length ∧ r.cnt ≤ r'.cnt := by
+  simp only [dataLen] at h
+  split at h
+  · split at h
+    · simp only [Prod.mk.injEq] at h; rw [← h.2]; omega
+    · rename_i l8 r1 h1
+      have t1 := rU8_total h1
+      split at h
+      · split at h
+        · simp only [Prod.mk.injEq] at h; rw [← h.2]; exact t1
+        · rename_i l r2 h2
+          have t2 := rU16_total h2
+          simp only [Prod.mk.injEq] at h; rw [← h.2]; omega
+      · simp only [Prod.mk.injEq] at h; rw [← h.2]; exact t1
+  · simp only [Prod.mk.injEq] at h; rw [← h.2]; omega
+
+/-- the record decoder never changes `count + remaining` and never moves the count back -/
+theorem decFields_total (fs : List Spec) : ∀ (acc : Record) (r : Rd) (res : Except Err Record) (r' : Rd),
+    decFields fs r acc = (res, r') → r'.cnt + r'.rem.length = r.cnt + r.rem.length ∧ r.cnt ≤ r'.cnt := by
+  induction fs with
+  | nil => intro acc r res r' h; simp only [decFields_nil, Prod.mk.injEq] at h; rw [← h.2]; omega
+  | cons x xs ih =>
+    intro acc r res r' h
+    simp only [decFields_cons] at h
+    split at h
+    · simp only [Prod.mk.injEq] at h; rw [← h.2]; omega
+    · rename_i fid ty hk
+      generalize hp : dataLen r x.len ty = p at h
+      obtain ⟨res0, r1⟩ := p
+      have t1 := dataLen_total _ _ _ _ _ hp
+      cases res0 with
+      | error e => simp only [Prod.mk.injEq] at h; rw [← h.2]; exact t1
+      | ok n =>
+        simp only at h
+        split at h
+        · simp only [Prod.mk.injEq] at h; rw [← h.2]; exact t1
+        · rename_i b r2 h2
+          have t2 := readN_total h2
+          have t3 := ih _ _ _ _ h
+          omega
+
+theorem decodeData_total (t : Template) (r : Rd) (res : Except Err Record) (r' : Rd)
+    (h : decodeData t r = (res, r')) :
+    r'.cnt + r'.rem.length = r.cnt + r.rem.length ∧ r.cnt ≤ r'.cnt := by
+  simp only [decodeData] at h
+  generalize hp : decFields (t.scope ++ t.fields) r [] = p at h
+  obtain ⟨res0, r1⟩ := p
+  have t1 := decFields_total _ _ _ _ _ hp
+  cases res0 with
+  | error e => simp only [Prod.mk.injEq] at h; rw [← h.2]; exact t1
+  | ok fs =>
+    simp only at h
+    split at h <;> (simp only [Prod.mk.injEq] at h; rw [← h.2]; exact t1)
+
+/-- **skip, one set, element missing from the information model**: a data set whose template `t` is
+cached, with a body of more than 4 octets on which the record decoder (run on the body alone) stops
+with `unknownElem`, is skipped like an undecodable one, in front of any `rest`. -/
+theorem decodeSet_skips_unknownElem (addr : Bytes) (fuel : Nat) (st : St) (sid : Nat) (body rest : Bytes)
+    (t : Template) (r1 : Rd)
+    (hsid : sid < 65536) (hlen : 4 + body.length < 65536) (hfuel : 0 < fuel)
+    (hrem : st.r.rem = setBytes sid body ++ rest)
+    (hbig : sid > 255) (hlook : st.cache.lookup addr sid = some t) (hbody : body.length > 4)
+    (hdec : decodeData t ⟨body, st.r.cnt + 4⟩ = (.error .unknownElem, r1)) :
+    decodeSet addr fuel st =
+      ({ st with r := ⟨rest, st.r.cnt + (setBytes sid body).length⟩ }, some .unknownElem) := by
+  obtain ⟨⟨rem, cnt⟩, cache, recs⟩ := st
+  simp only at hrem hlook hdec ⊢
+  subst hrem
+  obtain ⟨fuel', rfl⟩ : ∃ f, fuel = f + 1 := ⟨fuel - 1, by omega⟩
+  have hcnt : cnt + (setBytes sid body).length = cnt + 2 + 2 + body.length := by
+    rw [setBytes_length]; omega
+  rw [hcnt]
+  simp only [decodeSet, setBytes, List.append_assoc, rU16_be16 _ _ _ hsid, rU16_be16 _ _ _ hlen]
+  rw [if_neg (by omega)]
+  simp only [setBody, lookupTpl, if_pos hbig, hlook, Option.getD_some]
+  have hext : Ext rest ⟨body, cnt + 4⟩ ⟨body ++ rest, cnt + 2 + 2⟩ := ⟨rfl, rfl⟩
+  obtain ⟨f', hf', he'⟩ : ∃ f', decodeData t ⟨body ++ rest, cnt + 2 + 2⟩ = (.error .unknownElem, f') ∧
+      Ext rest r1 f' := by
+    rcases decodeData_mono t rest _ _ hext _ _ hdec with hs | h
+    · simp at hs
+    · exact h
+  have htot := decodeData_total _ _ _ _ hdec
+  simp only at htot
+  have hloop : setLoop ⟨addr, sid, 4 + body.length, cnt, t⟩ (fuel' + 1) ⟨⟨body ++ rest, cnt + 2 + 2⟩, cache, recs⟩ =
+      (⟨f', cache, recs⟩, some .unknownElem, false) := by
+    have hcc : contCond ⟨addr, sid, 4 + body.length, cnt, t⟩ ⟨body ++ rest, cnt + 2 + 2⟩ = true := by
+      have hco : consumed16 ⟨addr, sid, 4 + body.length, cnt, t⟩ ⟨body ++ rest, cnt + 2 + 2⟩ = 4 := by
+        simp only [consumed16]; omega
+      unfold contCond
+      rw [hco]
+      have h1 : 4 + body.length > 4 := by omega
+      have h2 : body.length + rest.length > 4 := by omega
+      have h3 : (4 + body.length + 65536 - 4) % 65536 > 4 := by omega
+      simp [h1, h2]
+      omega
+    have h23 : ¬ (sid = 2 ∨ sid = 3) := by omega
+    have hres : ¬ (4 ≤ sid ∧ sid ≤ 255) := by omega
+    have hz : ¬ sid = 0 := by omega
+    simp only [setLoop, hcc, if_true, if_neg h23, if_neg hres, if_neg hz, hf', Err.nonfatal]
+  rw [hloop]
+  simp only [Bool.false_eq_true, if_false]
+  obtain ⟨frem, fcnt⟩ := f'
+  obtain ⟨hc1, hr1⟩ := he'
+  simp only at hc1 hr1
+  subst hr1
+  have := skipRest_rem ⟨addr, sid, 4 + body.length, cnt, t⟩ r1.rem rest fcnt cache recs (some .unknownElem)
+    (by simp only [consumed16]; omega)
+  rw [this]
+  have : fcnt + r1.rem.length = cnt + 2 + 2 + body.length := by omega
+  rw [this]
+
+/-- `u` is *skipped* at cache `c` with error slot `e`: it is a whole set (at least the 4-octet
+header), `e` is not a fatal error, and in front of any `rest`, at any count, with any records
+accumulated, `decodeSet` only moves the reader over `u`. -/
+structure Skipped (addr : Bytes) (c : Cache) (u : Bytes) (e : Option Err) : Prop where
+  nonfatal : ∀ x, e = some x → x.nonfatal = true
+  len : 4 ≤ u.length
+  run : ∀ (fuel k : Nat) (recs : List Record) (rest : Bytes), 0 < fuel →
+    decodeSet addr fuel ⟨⟨u ++ rest, k⟩, c, recs⟩ = (⟨⟨rest, k + u.length⟩, c, recs⟩, e)
+
+theorem skipped_of_undecodable (addr : Bytes) (c : Cache) (sid : Nat) (body : Bytes)
+    (hsid : sid < 65536) (hlen : 4 + body.length < 65536) (hu : Undecodable c addr sid) :
+    Skipped addr c (setBytes sid body) (skipErr sid) where
+  nonfatal := skipErr_nonfatal sid
+  len := by rw [setBytes_length]; omega
+  run := fun fuel k recs rest hf =>
+    decodeSet_skips addr fuel ⟨⟨setBytes sid body ++ rest, k⟩, c, recs⟩ sid body rest hsid hlen hf rfl hu
+
+/-- the hypothesis on the record decoder may be stated at any count (`ShiftIpfix`) -/
+theorem skipped_of_unknownElem (addr : Bytes) (c : Cache) (sid : Nat) (body : Bytes) (t : Template) (r1 : Rd)
+    (hsid : sid < 65536) (hlen : 4 + body.length < 65536)
+    (hbig : sid > 255) (hlook : c.lookup addr sid = some t) (hbody : body.length > 4)
+    (hdec : decodeData t ⟨body, 0⟩ = (.error .unknownElem, r1)) :
+    Skipped addr c (setBytes sid body) (some .unknownElem) where
+  nonfatal := fun x hx => by simp only [Option.some.injEq] at hx; subst hx; rfl
+  len := by rw [setBytes_length]; omega
+  run := fun fuel k recs rest hf => by
+    have hsh := decodeData_shifts t (k + 4) ⟨body, 0⟩
+    rw [hdec] at hsh
+    simp only [Rd.shift, Nat.zero_add] at hsh
+    exact decodeSet_skips_unknownElem addr fuel ⟨⟨setBytes sid body ++ rest, k⟩, c, recs⟩ sid body rest t _
+      hsid hlen hf rfl hbig hlook hbody hsh
+
+/-- **skip, outer loop**: with a skipped set in front (and more than 4 octets in all), the outer loop
+spends one iteration on it and continues on `rest` with the same cache and records, the count
+advanced, and the error slot appended to the non-fatal errors. -/
+theorem outer_skips_gen (addr : Bytes) (fuel : Nat) (st : St) (errs : List Err) (u rest : Bytes)
+    (e : Option Err) (hs : Skipped addr st.cache u e) (hrem : st.r.rem = u ++ rest)
+    (hgt : u.length + rest.length > 4) :
+    outer addr (fuel + 1) st errs =
+      outer addr fuel { st with r := ⟨rest, st.r.cnt + u.length⟩ } (errs ++ e.toList) := by
+  obtain ⟨⟨rem, cnt⟩, cache, recs⟩ := st
+  simp only at hs hrem ⊢
+  subst hrem
+  have hl : (u ++ rest).length > 4 := by rw [List.length_append]; omega
+  simp only [outer]
+  rw [if_pos hl, hs.run _ _ _ _ (by omega)]
+  cases e with
+  | none => simp
+  | some x => simp [hs.nonfatal x rfl]
+
+/-- `outer_skips_gen` for an undecodable set -/
 theorem outer_skips (addr : Bytes) (fuel : Nat) (st : St) (errs : List Err) (sid : Nat) (body rest : Bytes)
     (hsid : sid < 65536) (hlen : 4 + body.length < 65536)
     (hrem : st.r.rem = setBytes sid body ++ rest) (hu : Undecodable st.cache addr sid)
     (hgt : body.length + rest.length > 0) :
     outer addr (fuel + 1) st errs =
       outer addr fuel { st with r := ⟨rest, st.r.cnt + (setBytes sid body).length⟩ }
-        (errs ++ (skipErr sid).toList) := by
-  have hl : st.r.rem.length > 4 := by
-    rw [hrem, List.length_append, setBytes_length]; omega
-  simp only [outer]
-  rw [if_pos hl, decodeSet_skips addr _ st sid body rest hsid hlen (by omega) hrem hu]
-  cases he : skipErr sid with
-  | none => simp
-  | some e => simp [skipErr_nonfatal _ _ he]
+        (errs ++ (skipErr sid).toList) :=
+  outer_skips_gen addr fuel st errs _ rest _ (skipped_of_undecodable addr st.cache sid body hsid hlen hu) hrem
+    (by rw [setBytes_length]; omega)
 
-/-- **skip, tail case**: an empty undecodable set at the very end is not even looked at (the
-outer loop stops at 4 remaining octets) -/
+/-- **skip, tail case**: when at most 4 octets remain the outer loop stops without looking at them
+(so a 4-octet set at the very end is ignored, exactly as the empty rest would be) -/
+theorem outer_tail (addr : Bytes) (fuel : Nat) (st : St) (errs : List Err) (h : st.r.rem.length ≤ 4) :
+    outer addr (fuel + 1) st errs = (st, none, errs) := by
+  simp only [outer]
+  rw [if_neg (by omega)]
+
 theorem outer_skips_tail (addr : Bytes) (fuel : Nat) (st : St) (errs : List Err) (sid : Nat)
     (hrem : st.r.rem = setBytes sid []) :
-    outer addr (fuel + 1) st errs = (st, none, errs) := by
-  have hl : ¬ st.r.rem.length > 4 := by
-    rw [hrem, setBytes_length]; simp
-  simp only [outer]
-  rw [if_neg hl]
+    outer addr (fuel + 1) st errs = (st, none, errs) :=
+  outer_tail addr fuel st errs (by rw [hrem, setBytes_length]; simp)
 
 /-! ## Fuel and error-list bookkeeping of the outer loop -/
 
@@ -232,22 +395,22 @@ def Same (a b : St × Option Err × List Err) : Prop :=
   a.1.recs = b.1.recs ∧ a.1.cache = b.1.cache ∧ a.2.1 = b.2.1
 
 /-- **skip, after a clean prefix** (outer loop).  `pre` is a sequence of sets that the outer loop
-decodes on its own exactly to its end (`hpre`), leaving cache `c1`; `u = setBytes sid body` is
-undecodable for `c1`.  Then the outer loop on `pre ++ u ++ post` ends with the same records, cache
-and fatal-error slot as on `pre ++ post`, provided the run without `u` does not run out of fuel and
-the run with `u` has at least `|u|` more fuel (as `decode` supplies). -/
-theorem outer_insert (addr pre post : Bytes) (sid : Nat) (body : Bytes) (k k1 : Nat) (c c1 : Cache)
+decodes on its own exactly to its end (`hpre`), leaving cache `c1`; `u` is skipped at `c1`.  Then the
+outer loop on `pre ++ u ++ post` ends with the same records, cache and fatal-error slot as on
+`pre ++ post`, provided the run without `u` does not run out of fuel and the run with `u` has at least
+`|u|` more fuel (as `decode` supplies). -/
+theorem outer_insert (addr pre post u : Bytes) (e : Option Err) (k k1 : Nat) (c c1 : Cache)
     (recs1 : List Record) (errs1 : List Err)
     (hpre : outer addr (pre.length + 1) ⟨⟨pre, k⟩, c, []⟩ [] = (⟨⟨[], k1⟩, c1, recs1⟩, none, errs1))
-    (hsid : sid < 65536) (hlen : 4 + body.length < 65536) (hu : Undecodable c1 addr sid)
-    (FA FB : Nat) (hFB : pre.length + 1 ≤ FB) (hFA : FB + 4 ≤ FA)
+    (hs : Skipped addr c1 u e)
+    (FA FB : Nat) (hFB : pre.length + 1 ≤ FB) (hFA : FB + u.length ≤ FA)
     (hnf : (outer addr FB ⟨⟨pre ++ post, k⟩, c, []⟩ []).2.1 ≠ some .fuel) :
-    Same (outer addr FA ⟨⟨pre ++ (setBytes sid body ++ post), k⟩, c, []⟩ [])
+    Same (outer addr FA ⟨⟨pre ++ (u ++ post), k⟩, c, []⟩ [])
       (outer addr FB ⟨⟨pre ++ post, k⟩, c, []⟩ []) := by
+  have hu4 := hs.len
   obtain ⟨_, j, hj, hall⟩ := outer_ext addr _ _ _ _ _ hpre
   obtain ⟨sB, hrelB, hrunB⟩ := hall post ⟨⟨pre ++ post, k⟩, c, []⟩ ⟨⟨rfl, rfl⟩, rfl, rfl⟩
-  obtain ⟨sA, hrelA, hrunA⟩ := hall (setBytes sid body ++ post)
-    ⟨⟨pre ++ (setBytes sid body ++ post), k⟩, c, []⟩ ⟨⟨rfl, rfl⟩, rfl, rfl⟩
+  obtain ⟨sA, hrelA, hrunA⟩ := hall (u ++ post) ⟨⟨pre ++ (u ++ post), k⟩, c, []⟩ ⟨⟨rfl, rfl⟩, rfl, rfl⟩
   have hsB := hrelB.eq
   have hsA := hrelA.eq
   simp only [List.nil_append] at hsB hsA
@@ -256,12 +419,10 @@ theorem outer_insert (addr pre post : Bytes) (sid : Nat) (body : Bytes) (k k1 : 
   obtain ⟨mA, rfl⟩ : ∃ m, FA = j + m := ⟨FA - j, by omega⟩
   rw [hrunB] at hnf
   rw [hrunA, hrunB]
-  -- the state at which both runs start on `post`
-  by_cases hgt : body.length + post.length > 0
-  · obtain ⟨mA', rfl⟩ : ∃ m, mA = m + 1 := ⟨mA - 1, by omega⟩
-    rw [outer_skips addr mA' ⟨⟨setBytes sid body ++ post, k1⟩, c1, recs1⟩ errs1 sid body post hsid hlen rfl hu hgt]
-    have hsh := outer_shift addr (setBytes sid body).length mA' ⟨⟨post, k1⟩, c1, recs1⟩
-      (errs1 ++ (skipErr sid).toList)
+  obtain ⟨mA', rfl⟩ : ∃ m, mA = m + 1 := ⟨mA - 1, by omega⟩
+  by_cases hgt : u.length + post.length > 4
+  · rw [outer_skips_gen addr mA' ⟨⟨u ++ post, k1⟩, c1, recs1⟩ errs1 u post e hs rfl hgt]
+    have hsh := outer_shift addr u.length mA' ⟨⟨post, k1⟩, c1, recs1⟩ (errs1 ++ e.toList)
     simp only [St.shift, Rd.shift] at hsh
     simp only
     rw [hsh]
@@ -270,16 +431,13 @@ theorem outer_insert (addr pre post : Bytes) (sid : Nat) (body : Bytes) (k k1 : 
     have hm := outer_fuel_mono addr mB ⟨⟨post, k1⟩, c1, recs1⟩ [] hnf mA' (by omega)
     rw [hm]
     exact ⟨rfl, rfl, rfl⟩
-  · have hb : body = [] := List.eq_nil_of_length_eq_zero (by omega)
-    have hp : post = [] := List.eq_nil_of_length_eq_zero (by omega)
-    subst hb; subst hp
-    obtain ⟨mA', rfl⟩ : ∃ m, mA = m + 1 := ⟨mA - 1, by omega⟩
-    rw [List.append_nil, outer_skips_tail addr mA' _ errs1 sid rfl]
+  · have hp : post = [] := List.eq_nil_of_length_eq_zero (by omega)
+    subst hp
+    rw [outer_tail addr mA' _ errs1 (by simp only [List.append_nil]; omega)]
     cases mB with
     | zero => simp [outer] at hnf
     | succ mB' =>
-      simp only [outer]
-      rw [if_neg (by simp)]
+      rw [outer_tail addr mB' _ errs1 (by simp)]
       exact ⟨rfl, rfl, rfl⟩
 
 theorem decode_of_header (c : Cache) (addr hdr x : Bytes) (h : Hdr) (k : Nat)
@@ -301,21 +459,21 @@ theorem decode_of_header (c : Cache) (addr hdr x : Bytes) (h : Hdr) (k : Nat)
 
 /-- **skip, whole message.**  `hdr` is a message header (`hh`), `pre` a sequence of sets that the
 outer loop, started after the header with cache `c`, decodes on its own exactly to its end without a
-fatal error (`hpre`), leaving the cache `c1`; `u = setBytes sid body` is undecodable for `c1`.
+fatal error (`hpre`), leaving the cache `c1`; `u` is skipped at `c1` (`Skipped`).
 Then for every `post`, inserting `u` between `pre` and `post` changes neither the decoded records, nor
 the resulting cache, nor whether / with which fatal error the decode fails (only one more non-fatal
 error may be reported).  `hfuel`: the decode *without* `u` does not run out of model fuel. -/
-theorem decode_skips (c : Cache) (addr hdr pre post : Bytes) (sid : Nat) (body : Bytes)
+theorem decode_skips (c : Cache) (addr hdr pre post u : Bytes) (e : Option Err)
     (h : Hdr) (k k1 : Nat) (c1 : Cache) (recs1 : List Record) (errs1 : List Err)
     (hh : readHeader ⟨hdr, 0⟩ = some (h, ⟨[], k⟩))
     (hpre : outer addr (pre.length + 1) ⟨⟨pre, k⟩, c, []⟩ [] = (⟨⟨[], k1⟩, c1, recs1⟩, none, errs1))
-    (hsid : sid < 65536) (hlen : 4 + body.length < 65536) (hu : Undecodable c1 addr sid)
+    (hs : Skipped addr c1 u e)
     (hfuel : (decode c addr (hdr ++ (pre ++ post))).1 ≠ .error .fuel) :
-    recordsOf (decode c addr (hdr ++ (pre ++ (setBytes sid body ++ post)))).1 =
+    recordsOf (decode c addr (hdr ++ (pre ++ (u ++ post)))).1 =
       recordsOf (decode c addr (hdr ++ (pre ++ post))).1 ∧
-    (decode c addr (hdr ++ (pre ++ (setBytes sid body ++ post)))).2 = (decode c addr (hdr ++ (pre ++ post))).2 ∧
-    ∀ e, (decode c addr (hdr ++ (pre ++ (setBytes sid body ++ post)))).1 = .error e ↔
-      (decode c addr (hdr ++ (pre ++ post))).1 = .error e := by
+    (decode c addr (hdr ++ (pre ++ (u ++ post)))).2 = (decode c addr (hdr ++ (pre ++ post))).2 ∧
+    ∀ x, (decode c addr (hdr ++ (pre ++ (u ++ post)))).1 = .error x ↔
+      (decode c addr (hdr ++ (pre ++ post))).1 = .error x := by
   rw [decode_of_header c addr hdr _ h k hh] at hfuel ⊢
   rw [decode_of_header c addr hdr _ h k hh]
   by_cases hv : h.headD 0 ≠ 10
@@ -329,11 +487,11 @@ theorem decode_skips (c : Cache) (addr hdr pre post : Bytes) (sid : Nat) (body :
       simp only at hx
       subst hx
       simp at hfuel
-    have hsame := outer_insert addr pre post sid body k k1 c c1 recs1 errs1 hpre hsid hlen hu
-      ((hdr ++ (pre ++ (setBytes sid body ++ post))).length + 1) ((hdr ++ (pre ++ post)).length + 1)
+    have hsame := outer_insert addr pre post u e k k1 c c1 recs1 errs1 hpre hs
+      ((hdr ++ (pre ++ (u ++ post))).length + 1) ((hdr ++ (pre ++ post)).length + 1)
       (by simp only [List.length_append]; omega)
-      (by simp only [List.length_append, setBytes_length]; omega) hnf
-    generalize outer addr ((hdr ++ (pre ++ (setBytes sid body ++ post))).length + 1) _ [] = oA at hsame
+      (by simp only [List.length_append]; omega) hnf
+    generalize outer addr ((hdr ++ (pre ++ (u ++ post))).length + 1) _ [] = oA at hsame
     generalize outer addr ((hdr ++ (pre ++ post)).length + 1) _ [] = oB at hsame
     obtain ⟨stA, eA, errsA⟩ := oA
     obtain ⟨stB, eB, errsB⟩ := oB
